@@ -1042,7 +1042,18 @@ def check_C20(chk):
         if res.violation:
             m = re.findall(r"sched = <<([0-9, ]*)>>", res.out)
             sched = m[-1].replace(" ", "") if m else ""
-            out = chk.run_harness(bins["dbg-native"], ["gated", "--schedule", sched, "--threads", str(nthreads), "--calls", str(calls)], "replay of the TLC schedule on the real code")
+            try:
+                out = chk.run_harness(bins["dbg-native"], ["gated", "--schedule", sched, "--threads", str(nthreads), "--calls", str(calls)], "replay of the TLC schedule on the real code", timeout=120)
+            except ToolError as e:
+                if "timed out" not in str(e):
+                    raise
+                # the gates stop a thread before each primitive of the traced counter; a thread that blocks somewhere else (a lock the code
+                # takes) never arrives at its gate and the schedule cannot be enforced: the model does not describe this code
+                vlib.log("MODEL-DRIFT property=C20: the schedule %s could not be enforced through the counter gates (a thread blocks outside the traced counter); "
+                         "the stress traces and the adversarial requests decide" % sched)
+                chk.cov.setdefault("model_drift", []).append({"stage": "gated replay timed out", "schedule": sched})
+                chk._gates_unusable = True
+                out = None
             if out is not None and out.get("distinct", 0) < out.get("total", 0):
                 chk.violation("TLC schedule replayed through the counter gates on the real code",
                               {"kind": "schedule", "program": prog, "schedule": sched, "names": out.get("names")})
@@ -1076,7 +1087,18 @@ def check_C20(chk):
     else:
         chk.cov["unbounded_proof"] = {"note": "mech/TempNameProof covers the program <<fetch_add>> only; extracted: %s" % prog}
     # 2. the real code under every schedule of a few concurrent calls (no model of the program needed)
-    if not chk.violations:
+    if not chk.violations and not getattr(chk, "_gates_unusable", False):
+        # can the gates enforce a schedule at all?  (two threads, alternating; a code that blocks outside the traced counter cannot be gated)
+        try:
+            vlib.harness(bins["dbg-native"], ["gated", "--schedule", "1,2,1,2,1,2,1,2", "--threads", "2", "--calls", "1"], timeout=60)
+        except ToolError as e:
+            if "timed out" not in str(e):
+                raise
+            vlib.log("MODEL-DRIFT property=C20: schedules cannot be enforced through the counter gates (a thread blocks outside the traced counter); "
+                     "the stress traces and the adversarial requests decide")
+            chk.cov.setdefault("model_drift", []).append({"stage": "gate probe timed out"})
+            chk._gates_unusable = True
+    if not chk.violations and not getattr(chk, "_gates_unusable", False):
         for nthreads, steps, mixed in [(2, 5, False), (3, 3, False), (3, 4, False), (2, 6, True), (3, 3, True)] + ([(3, 5, False), (4, 3, False), (3, 4, True)] if chk.thorough else []):
             stage_schedules(chk, bins, nthreads, steps, mixed)
             if chk.violations:
